@@ -118,6 +118,20 @@ def run_case(case):
         where = f"after op {k} {op}"
         if kind_op == "add":
             if i in pos:
+                # the agent is already in the world: the placement is rejected (duplicate id) and must change nothing
+                vals = [num(v) for v in (list(op["pos"]) + [0, 0, 0])[:3]]
+                before = others_snapshot()
+                try:
+                    env.add_agent(agents[i], *[v[0] for v in vals])
+                except Exception:
+                    pass
+                else:
+                    raise Violation("duplicate-placement-accepted", f"{where}: adding resident agent a{i} again was accepted")
+                if others_snapshot() != before:
+                    raise Violation("rejected-placement-left-trace", f"{where}: re-adding resident a{i} at {[v[0] for v in vals]} was rejected but "
+                                                                     f"positions changed from {before} to {others_snapshot()}")
+                labels.add("duplicate-placement-rejected")
+                check_all(where)
                 continue
             vals = [num(v) for v in (list(op["pos"]) + [0, 0, 0])[:3]]
             inrange = all(0 <= vals[ax][1] <= hi(ax) for ax in positive)
